@@ -29,6 +29,13 @@ import (
 
 func TestMain(m *testing.M) { vkit.Main(m, "C15") }
 
+// stall: how long the scheduler waits for a task that is neither parked nor finished before
+// it goes on without it. The code under test holds no lock across store operations, so the
+// wait only matters (a) on a starved machine and (b) for mutants that do block. Exhaustive
+// enumeration needs the same tree on every re-execution and waits long; random schedules
+// only need a valid execution and move on quickly.
+var stall = 60 * time.Millisecond
+
 // ---------------------------------------------------------------------------
 // case
 
@@ -446,7 +453,7 @@ func runCase(c Case, choose func(int, []string) int) result {
 		}
 	}
 	w.g.MaxSteps = 2*idgen.MaxAttempts*totalGens + 200
-	w.g.Stall = 2 * time.Second // no lock is held across store operations on the SetNX path: never wait-stall on a slow task
+	w.g.Stall = stall // no lock is held across store operations on the SetNX path: never wait-stall on a slow task
 	if c.Mode == "fallback" {
 		w.g.Stall = 3 * time.Millisecond // the fallback holds a local mutex across two store operations
 	}
@@ -598,7 +605,7 @@ func runNodeAlloc(c Case, choose func(int, []string) int) result {
 		}
 	}
 	w.g.MaxSteps = 4000
-	w.g.Stall = 2 * time.Second
+	w.g.Stall = stall
 	w.g.FailAt = c.FailAt
 	w.g.Activate()
 	for i := range c.Tasks {
@@ -940,6 +947,8 @@ var dfsProgs = []dfsProg{
 var dfsScripts = [][]int{{0, 0, 1}, {0, 1, 0}, {1, 0, 0}, {0, 1, 2}}
 
 func TestExhaustive(t *testing.T) {
+	stall = 2 * time.Second
+	defer func() { stall = 60 * time.Millisecond }()
 	idx, total := 0, 0
 	progs := dfsProgs
 	ks := []int{4, 5}
